@@ -285,7 +285,8 @@ func c10ws(s string) string { return strings.Trim(s, " \t") }
 
 func c10Gen(t *rapid.T) c10Case {
 	o := gen.GenOpts{
-		Encodings: []string{"quoted-printable", "base64", "8bit", "7bit"}, MaxParts: 3, MaxEmbeds: 2, MaxAttach: 3,
+		Boundaries: true,
+		Encodings:  []string{"quoted-printable", "base64", "8bit", "7bit"}, MaxParts: 3, MaxEmbeds: 2, MaxAttach: 3,
 		PartEncs: []string{"", "", "quoted-printable", "base64", "8bit", "7bit"}, FileEncs: []string{"", "", "base64", "8bit", "7bit"},
 		TextOnlyQP: true, Sources: []string{"reader", "readseeker", "file"}, Vias: []string{"string", "writer"},
 	}
